@@ -6,7 +6,9 @@ from concurrent.futures import ThreadPoolExecutor
 ROOT = os.path.dirname(os.path.dirname(os.path.abspath(__file__)))
 CACHE = os.path.join(ROOT, ".cache")
 DRIVER = os.path.join(CACHE, "ocaml", "driver")
-HARNESS = os.path.join(CACHE, "harness-target", "release", "vharness")
+# VERIF_HARNESS: run another build of the same harness sources (used by tools/coverage.sh for a
+# coverage-instrumented binary); the checks registered in MANIFEST.json never set it
+HARNESS = os.environ.get("VERIF_HARNESS") or os.path.join(CACHE, "harness-target", "release", "vharness")
 COQ = os.path.join(ROOT, "coq")
 NPROC = 16
 ENV = dict(os.environ, CARGO_NET_OFFLINE="true")
